@@ -142,7 +142,7 @@ def main():
     alt_repo = os.environ.get('VERIF_REPO')
     if alt_repo and os.path.realpath(alt_repo) == '/repo':
         alt_repo = None
-    sfx = '-alt' if alt_repo else ''     # mutation testing against a scratch worktree: separate work/evidence/target dirs
+    sfx = ('-' + re.sub(r'[^A-Za-z0-9_-]', '_', os.path.basename(os.path.realpath(alt_repo)))) if alt_repo else ''     # mutation testing against a scratch worktree: separate work/evidence/target dirs
     work = os.path.join(ROOT, 'work', pid + sfx)
     shutil.rmtree(work, ignore_errors=True)
     os.makedirs(work, exist_ok=True)
@@ -206,7 +206,8 @@ def main():
         hdir = os.path.join(ROOT, 'harness')
         tdir = os.path.join(ROOT, 'cache', 'target')
         if alt_repo:
-            hdir = os.path.join(ROOT, 'cache', 'harness-alt'); tdir = os.path.join(ROOT, 'cache', 'target-alt')
+            slot = re.sub(r'[^A-Za-z0-9_-]', '_', os.path.basename(os.path.realpath(alt_repo)))
+            hdir = os.path.join(ROOT, 'cache', 'harness-' + slot); tdir = os.path.join(ROOT, 'cache', 'target-' + slot)
             sh(['rsync', '-a', '--delete', os.path.join(ROOT, 'harness') + '/', hdir + '/'])
             ct = open(os.path.join(hdir, 'Cargo.toml')).read().replace('path = "/repo"', f'path = "{os.path.realpath(alt_repo)}"')
             open(os.path.join(hdir, 'Cargo.toml'), 'w').write(ct)
